@@ -508,6 +508,14 @@ func CDXNode(r *rand.Rand, id string, ver int, k int, first bool) *sbom.Node {
 			n.Licenses = append(n.Licenses, Pick(r, []string{"MIT", "Apache-2.0", "BSD-3-Clause", "GPL-2.0-only", "ISC", "MPL-2.0"}))
 		}
 	}
+	if r.Intn(3) == 0 {
+		// suppliers are written (first one, with contacts) but not read back; present so that the code runs
+		sp := &sbom.Person{Name: txt(), IsOrg: true}
+		for i := 0; i < r.Intn(3); i++ {
+			sp.Contacts = append(sp.Contacts, &sbom.Person{Name: txt(), Email: IDSpdx(r) + "@example.com", Phone: "123"})
+		}
+		n.Suppliers = []*sbom.Person{sp}
+	}
 	if p() || first {
 		cnt := 1 + r.Intn(3)
 		for i := 0; i < cnt; i++ {
